@@ -7,8 +7,18 @@ the Lean transition system (`cache.run`), and the observable history is compared
 hit / create / fail / clear events, every operation's result (which object id, which failure),
 the number of creator invocations, the final table. Independent monitors judge the property text
 directly on the implementation's history; the Lean `cache.judge` op re-judges it against the
-atomic specification. Plus: Loader key check (fake loader + real files with '+' in the names),
-add_sys_path under the scheduler.
+atomic specification. Plus: Loader key check (fake loader + real files with '+' in the names, keys
+that coincide under path joining), add_sys_path under the scheduler.
+
+The layers ABOVE the caches (lean `CacheTS.Stack`): sessions of run / source edit / clear / no_cache
+driven through the real clients that could hold on to cached objects — long-lived
+`pypyr.pipeline.Pipeline` objects (run / load_and_run_pipeline with a parent per call),
+`pipelinerunner.run`, the pype step, long-lived `Step` objects — with the file loader on real
+files and two custom loaders. Every run shows which version of which source it executed and
+which creators (load_the_loader, get_pipeline_definition, load_pipeline_from_file, load_the_step)
+it invoked; compared with `cache.session`, and judged by `stack_monitor` from the property text:
+after a clear of the layers on its path, or with no_cache, a run sees the present source of ITS OWN
+(loader, parent, name).
 """
 from __future__ import annotations
 
@@ -21,10 +31,11 @@ from collections.abc import Mapping
 from pathlib import Path
 
 from .. import common
-from ..impl_c13 import Abort, CreatorError, Obj, Sched, SchedLock
+from ..impl_c13 import Abort, CreatorError, Obj, Sched, SchedLock, run_stack_impl, LOADER_NAMES
 
 LEAN_MODULES = ['Props.C13']
-TRUSTED = ['harness/impl_c13.py (deterministic scheduler, scheduler lock)',
+TRUSTED = ['harness/impl_c13.py (deterministic scheduler, scheduler lock; StackRig: real Pipeline / pipelinerunner / pype / '
+           'Step clients, counting wrappers around the four creators, per-operation SIGALRM time-out)',
            'harness/props/c13.py (adapters per cache class, monitors, canonicaliser)',
            'CPython threading.Event hand-off; dict get/set atomicity']
 ASSUMPTIONS = [
@@ -33,6 +44,12 @@ ASSUMPTIONS = [
     '(everything else in Cache.get touches only thread-local names or happens under the lock)',
     'falsy parents (None, \'\', 0) all mean "no parent": Loader.get_pipeline keys them by bare name',
     'LoaderCache.clear_pipes iterating the loader table without the lock is not part of the claim',
+    'layered sessions (CacheTS.Stack) are sequential: one thread; the interleavings of each single cache are the transition system',
+    'the world answers a request by its cache key (Stack.WorldOk): a loader does not tell the falsy parents None, \'\', 0 apart',
+    'in layered sessions the file a (parent, name) request means is supplied by the harness (first existing of parent dir / '
+    'absolute path; the relative names used exist nowhere else — checked); the resolution order itself is C19',
+    'editing a step module is not observable after a clear (Python keeps the module in sys.modules): for step_cache only the '
+    'creator invocation is observed',
 ]
 
 KINDS = ['Cache', 'file_cache', 'StepCache', 'ContextParserCache', 'BackoffCache', 'NamespaceCache',
@@ -521,8 +538,10 @@ def random_case(rng, nthreads=None):
 # ---------------------------------------------------------------------------------------------
 
 def key_requests():
-    parents = [None, '', 0, '/x/a', '/x/a+b', '/x', '/x/a+b+c', '+', 'a', 'a+', Path('/x/a'), Path('/x/a+b')]
-    names = ['b+c', 'c', 'a+b+c', '+b+c', 'b', '+', 'a/b+c', '']
+    parents = [None, '', 0, '/x/a', '/x/a+b', '/x', '/x/a+b+c', '+', 'a', 'a+', Path('/x/a'), Path('/x/a+b'),
+               '/x/a/sub', '/x/a/', '/x/a/sub/..', '/']
+    names = ['b+c', 'c', 'a+b+c', '+b+c', 'b', '+', 'a/b+c', '', 'sub/c', '/x/a/c', '/x/a/sub/c', '../a/c', 'sub/../c',
+             'x/a/c']
     return parents, names
 
 
@@ -546,6 +565,16 @@ def check_keys(env, res):
             old.setdefault(f'{r[0]}+{r[1]}', []).append(r)
     for grp in old.values():
         pairs += [(a, b) for a in grp for b in grp if a is not b]
+    # … and every pair whose keys coincide under path joining / normalisation (the first candidate of the file
+    # loader's look-up): (L, 'sub/c') ~ (L/sub, 'c') ~ (any, '/L/sub/c') ~ (L, 'sub/../sub/c')
+    joined = {}
+    for r in reqs:
+        j = os.path.normpath(os.path.join(str(r[0]), r[1])) if r[0] else os.path.normpath(r[1]) if r[1] else ''
+        joined.setdefault(j, []).append(r)
+    for grp in joined.values():
+        if 1 < len(grp) <= 12:
+            pairs += [(a, b) for a in grp for b in grp if a is not b]
+            res.count('key:joined-path-collision-pairs', len(grp) * (len(grp) - 1))
     pairs += [(r, r) for r in reqs[::5]]
     pairs += [(rng.choice(reqs), rng.choice(reqs)) for _ in range(env.n(300, 3000))]
     for (p1, n1), (p2, n2) in pairs:
@@ -650,6 +679,387 @@ def check_real_files(env, res):
         shutil.rmtree(root, ignore_errors=True)
 
 
+
+# ---------------------------------------------------------------------------------------------
+# the layers ABOVE the caches: sessions of run / edit / clear / no_cache through the real clients
+# (long-lived Pipeline objects, pipelinerunner.run, the pype step, long-lived Step objects)
+# ---------------------------------------------------------------------------------------------
+
+# file-loader requests (parent, name[, parent_form]); '/T' is the scratch root
+FILE_RQS = [(None, '/T/d0/vc13p'), ('/T/d0', 'vc13p'), ('/T/d1', 'vc13p'), ('/T/d0', '/T/d1/vc13p'), ('/T/d0', 'vc13q'),
+            ('/T/d0', 'vc13p', 'path'), ('/T/d0', 'sub/vc13p'), ('/T/d0/sub', 'vc13p'), ('/T/a', 'b+c'), ('/T/a+b', 'c'),
+            ('/T/missing', 'vc13p'), ('', '/T/d0/vc13p'), (None, '/T/d0/sub/vc13p')]
+FILES = ['/T/d0/vc13p.yaml', '/T/d1/vc13p.yaml', '/T/d0/vc13q.yaml', '/T/d0/sub/vc13p.yaml', '/T/a/b+c.yaml',
+         '/T/a+b/c.yaml']
+DIRS = ['/T/d0', '/T/d1', '/T/d0/sub', '/T/a', '/T/a+b']
+# custom-loader requests: pairs that coincide under '+' joining and under path joining, falsy parents
+CUSTOM_RQS = [(None, 'n'), ('', 'n'), ('/x/a', 'b+c'), ('/x/a+b', 'c'), ('/L', 'sub/c'), ('/L/sub', 'c'), ('/L', 'x'),
+              (None, '/L/x'), ('/L', '/L/x')]
+VIAS_ANY = ['obj', 'new', 'pype', 'step']
+VIAS_NOPARENT = ['obj.run', 'runner']
+CLEARS = [{'op': 'clearAll'}, {'op': 'clearLoaders'}, {'op': 'clearPipes', 'l': None}, {'op': 'clearFiles'},
+          {'op': 'clearSteps'}]
+
+
+def stack_rqs():
+    out = []
+    for r in FILE_RQS:
+        out.append({'for': 0, 'parent': r[0], 'name': r[1], 'parent_form': r[2] if len(r) > 2 else 'str'})
+    for par, n in CUSTOM_RQS:
+        out.append({'for': 'custom', 'parent': par, 'name': n, 'parent_form': 'str'})
+    return out
+
+
+def spec_file(files, rq):
+    """Which file a file-loader request means, from the property text. The relative names used here exist
+    nowhere in cwd, cwd/pipelines or the built-ins (checked by `stack_precheck`)."""
+    name, parent = rq['name'], rq['parent']
+    if name.startswith('/'):
+        f = name + '.yaml'
+    elif parent:
+        f = f'{parent}/{name}.yaml'
+    else:
+        return None
+    return f if f in files else None
+
+
+def rq_key(rq):
+    return (str(rq['parent']) if rq['parent'] else None, rq['name'])
+
+
+def spec_fresh(world, rqs, l, i):
+    """What an uncached look-up yields in `world` (None = not found / the loader raises)."""
+    rq = rqs[i]
+    if l == 0:
+        f = spec_file(world['files'], rq)
+        return None if f is None else world['files'][f]
+    for cl, par, n, v in world['custom']:
+        if cl == l and rq_key({'parent': par, 'name': n}) == rq_key(rq):
+            return v
+    return None
+
+
+def model_world(world, rqs):
+    fid = {f: i for i, f in enumerate(FILES)}
+    resolve = []
+    for i, rq in enumerate(rqs):
+        f = spec_file(world['files'], rq)
+        resolve.append([i, None if f is None else fid[f]])
+    custom = []
+    for cl, par, n, v in world['custom']:
+        i = next(k for k, rq in enumerate(rqs) if rq_key(rq) == rq_key({'parent': par, 'name': n}))
+        custom.append([cl, i, v])
+    return {'resolve': resolve, 'fileVer': [[fid[f], v] for f, v in world['files'].items()], 'custom': custom}
+
+
+def run_stack_model(env, case):
+    rqs = case['rqs']
+    mrqs = [{'truthy': bool(rq['parent']), 'parent': str(rq['parent']), 'name': rq['name']} for rq in rqs]
+    ops = []
+    for op in case['ops']:
+        k = op['op']
+        if k == 'run':
+            ops.append(['run', op['c'], op['l'], op['rq']])
+        elif k == 'world':
+            ops.append(['world', model_world(op['world'], rqs)])
+        elif k == 'clearPipes':
+            ops.append(['clearPipes', op['l']])
+        elif k == 'noCache':
+            ops.append(['noCache', bool(op['b'])])
+        else:
+            ops.append([k])
+    r = env.driver.ask('cache.session', rqs=mrqs, world=model_world(case['world'], rqs), noCache=bool(case.get('noCache')),
+                       ops=ops)
+    return r['runs']
+
+
+def stack_monitor(case, runs):
+    """The property text on the implementation's own observations, without the model:
+    * a run executes a version of ITS OWN (loader, parent, name) source — never another request's;
+    * "a clear makes the next look-up create afresh": the version that runs was current at some moment since the
+      layers on the request's path were last emptied (custom loader l: clear_all, loader_cache.clear, clear_pipes(l),
+      clear_pipes(), Loader.clear; file loader: clear_all, or file_cache.clear together with one of the former with
+      no file-loader run in between);
+    * "with caching disabled … identically except that items are re-created": with no_cache the version that runs is
+      the present one and the definition is re-created by every run."""
+    out = []
+    rqs = case['rqs']
+    world = case['world']
+    nc = bool(case.get('noCache'))
+    t = 0
+    hist = [(0, world)]                       # (time, world) — world in force from that time on
+    t_all = 0                                 # last clear_all
+    t_pipes = {0: 0, 1: 0, 2: 0}              # last time loader l's pipeline cache was emptied
+    t_files = 0                               # last time file_cache was emptied
+    file_runs = []                            # times of file-loader runs
+    k = 0
+    for op in case['ops']:
+        t += 1
+        kind = op['op']
+        if kind == 'world':
+            world = op['world']
+            hist.append((t, world))
+        elif kind == 'clearAll':
+            t_all = t
+            t_files = t
+            t_pipes = {l: t for l in t_pipes}
+        elif kind == 'clearLoaders' or (kind == 'clearPipes' and op['l'] is None):
+            t_pipes = {l: t for l in t_pipes}
+        elif kind == 'clearPipes':
+            t_pipes[op['l']] = t
+        elif kind == 'clearFiles':
+            t_files = t
+        elif kind == 'noCache':
+            nc = bool(op['b'])
+        elif kind == 'run':
+            if k >= len(runs):
+                break
+            obs = runs[k]
+            k += 1
+            l, i = op['l'], op['rq']
+            sig = {'clause': 'clear_refreshes', 'layer': 'stack', 'via': op['via'], 'loader': 'file' if l == 0 else 'custom'}
+            ran = obs['ran']
+            if isinstance(ran, dict):
+                out.append((dict(sig, clause='transparent'), f'run {k - 1} ({op}) ended unexpectedly: {ran}'))
+                if l == 0:
+                    file_runs.append(t)
+                continue
+            now = spec_fresh(world, rqs, l, i)
+            if nc:
+                if ran != now:
+                    out.append((dict(sig, clause='no_cache'),
+                                f'run {k - 1} with no_cache executed version {ran}; the present source of '
+                                f'({LOADER_NAMES[l]}, {rqs[i]["parent"]}, {rqs[i]["name"]}) is version {now}'))
+                elif not obs['defMade']:
+                    out.append((dict(sig, clause='no_cache'), f'run {k - 1} with no_cache did not re-create the pipeline definition'))
+            else:
+                if l == 0:
+                    lo, hi = sorted((t_files, t_pipes[0]))
+                    since = hi if not any(lo < x < hi for x in file_runs) else t_all
+                    since = max(since, t_all)
+                else:
+                    since = t_pipes[l]
+                # worlds in force at some moment in [since, now]
+                cands = [w for j, (tw, w) in enumerate(hist)
+                         if (hist[j + 1][0] if j + 1 < len(hist) else t + 1) > since]
+                allowed = [spec_fresh(w, rqs, l, i) for w in cands]
+                if ran not in allowed:
+                    own = {spec_fresh(w, rqs, l, i) for _, w in hist}
+                    if ran in own:
+                        out.append((sig, f'run {k - 1} (via {op["via"]}) executed version {ran} of '
+                                         f'({LOADER_NAMES[l]}, {rqs[i]["parent"]}, {rqs[i]["name"]}), which was replaced before '
+                                         f'the layers on its path were last cleared (at op {since}); versions current since then: {allowed}'))
+                    else:
+                        out.append((dict(sig, clause='pipeline_key'),
+                                    f'run {k - 1} (via {op["via"]}) of ({LOADER_NAMES[l]}, {rqs[i]["parent"]}, {rqs[i]["name"]}) '
+                                    f'executed version {ran}, which never was a version of its own source (own: {sorted(x for x in own if x is not None)})'))
+            if l == 0:
+                file_runs.append(t)
+    return out
+
+
+def check_stack_case(env, res, case, count=True):
+    impl = run_stack_impl(case)
+    model = run_stack_model(env, case)
+    res.case(case)
+    if count:
+        res.count('stack')
+        for op in case['ops']:
+            res.count('stack:' + op['op'] + (':' + op['via'] if op['op'] == 'run' else ''))
+    vs = stack_monitor(case, impl)
+    for sig, detail in vs[:3]:
+        res.violation(case, f'{sig["clause"]}: {detail}', signature=sig, impl=impl)
+    keys = ('ran', 'loaderMade', 'defMade', 'fileRead', 'stepMade')
+    mi = [{k: r.get(k) for k in keys} for r in impl]
+    mm = [{k: r.get(k) for k in keys} for r in model]
+    if count:
+        for r in model:
+            res.count('stack:clean-run' if r['clean'] else 'stack:stale-run')
+            if r['clean'] and r['ran'] != r['fresh']:
+                raise common.Infra('cache.session: a clean run of the model is not fresh (theorem session_fresh)')
+    if mi != mm:
+        res.mismatch(case, mm, mi)
+    return impl, model
+
+
+def stack_precheck():
+    import pypyr.loaders.file as fl
+    from pypyr.config import config
+    for rq in stack_rqs():
+        if rq['for'] == 0 and not rq['name'].startswith('/'):
+            for d in (config.cwd, fl.cwd_pipelines_dir, fl.builtin_pipelines_dir):
+                if Path(d, rq['name'] + '.yaml').exists():
+                    raise common.Infra(f'C13 stack cases need {rq["name"]}.yaml absent from {d}')
+
+
+class Versions:
+    """every (source, edit) gets a version number nobody else has"""
+
+    def __init__(self):
+        self.n = 100
+
+    def new(self):
+        self.n += 1
+        return self.n
+
+
+def base_world(ver, files=None, custom_rqs=None):
+    files = FILES if files is None else files
+    w = {'files': {f: ver.new() for f in files}, 'dirs': list(DIRS), 'custom': []}
+    for l in (1, 2):
+        for par, n in (CUSTOM_RQS if custom_rqs is None else custom_rqs):
+            if (par, n) == ('', 'n'):
+                continue          # same key as (None, 'n')
+            w['custom'].append([l, par, n, ver.new()])
+    return w
+
+
+def edit_world(world, ver, rng=None, what=None):
+    """a new world: some sources edited / removed / created"""
+    w = {'files': dict(world['files']), 'dirs': list(world['dirs']), 'custom': [list(c) for c in world['custom']]}
+    if what == 'all' or rng is None:
+        for f in list(w['files']):
+            w['files'][f] = ver.new()
+        for c in w['custom']:
+            c[3] = ver.new()
+        return w
+    for f in FILES:
+        x = rng.random()
+        if f in w['files']:
+            if x < 0.5:
+                w['files'][f] = ver.new()
+            elif x < 0.62:
+                del w['files'][f]
+        elif x < 0.5:
+            w['files'][f] = ver.new()
+    for c in w['custom']:
+        x = rng.random()
+        if x < 0.5:
+            c[3] = ver.new()
+        elif x < 0.6:
+            c[3] = None
+    return w
+
+
+def rq_index(rqs, l, parent, name, form='str'):
+    want = 0 if l == 0 else 'custom'
+    return next(i for i, rq in enumerate(rqs) if rq['for'] == want and rq['parent'] == parent and rq['name'] == name
+                and rq['parent_form'] == form)
+
+
+def directed_stack_cases():
+    """run, edit, run (still cached), CLEAR, run, run — for every client kind x loader kind x every way of
+    clearing / no_cache; the same Pipeline object run with different parents; sources that appear and vanish;
+    two loaders asked for the same (parent, name); requests whose keys coincide under joining."""
+    rqs = stack_rqs()
+    out = []
+
+    def mk(ops, world=None, noCache=False, tag=''):
+        ver = Versions()
+        w0 = base_world(ver) if world is None else world
+        full, w = [], w0
+        for op in ops:
+            if op == 'edit':
+                w = edit_world(w, ver)
+                full.append({'op': 'world', 'world': w})
+            elif isinstance(op, tuple) and op[0] == 'world':
+                w = op[1](w, ver)
+                full.append({'op': 'world', 'world': w})
+            else:
+                full.append(op)
+        out.append({'kind': 'stack', 'tag': tag, 'rqs': rqs, 'world': w0, 'noCache': noCache, 'ops': full})
+
+    targets = [(0, rq_index(rqs, 0, None, '/T/d0/vc13p'), True), (0, rq_index(rqs, 0, '/T/d0', 'vc13p'), False),
+               (1, rq_index(rqs, 1, None, 'n'), True), (2, rq_index(rqs, 2, '/x/a', 'b+c'), False)]
+    for l, i, noparent in targets:
+        vias = VIAS_ANY + (VIAS_NOPARENT if noparent else [])
+        for via in vias:
+            run = {'op': 'run', 'c': 0, 'l': l, 'rq': i, 'via': via}
+            clear_sets = [[{'op': 'clearAll'}], [{'op': 'clearLoaders'}, {'op': 'clearFiles'}],
+                          [{'op': 'clearFiles'}, {'op': 'clearPipes', 'l': l, 'how': 'clear_pipes'}],
+                          [{'op': 'clearPipes', 'l': l, 'how': 'Loader.clear'}, {'op': 'clearFiles'}],
+                          [{'op': 'clearPipes', 'l': None}, {'op': 'clearFiles'}, {'op': 'clearSteps'}],
+                          [{'op': 'noCache', 'b': True}],
+                          [{'op': 'clearLoaders'}], [{'op': 'clearFiles'}], [{'op': 'clearPipes', 'l': l, 'how': 'clear_pipes'}]]
+            for cs in clear_sets:
+                mk([run, 'edit', run] + cs + [run, run, 'edit', run], tag=f'refresh:{via}')
+            mk([run, 'edit', {'op': 'clearAll'}, 'edit', run, {'op': 'clearAll'}, run], tag=f'refresh2:{via}')
+            mk([run, 'edit', run, run], noCache=True, tag=f'nocache:{via}')
+    # one Pipeline object, the parent changes from call to call
+    for via in ('obj', 'step', 'new'):
+        seq = [rq_index(rqs, 0, '/T/d0', 'vc13p'), rq_index(rqs, 0, '/T/d1', 'vc13p'), rq_index(rqs, 0, '/T/missing', 'vc13p'),
+               rq_index(rqs, 0, '/T/d0/sub', 'vc13p'), rq_index(rqs, 0, '/T/d0', 'vc13p', 'path'), rq_index(rqs, 0, '/T/d1', 'vc13p')]
+        runs = [{'op': 'run', 'c': 1, 'l': 0, 'rq': i, 'via': via} for i in seq]
+        mk(runs, tag=f'parents:{via}')
+        mk(runs[:2] + ['edit', {'op': 'clearAll'}] + runs[:3] + ['edit'] + runs[:2], tag=f'parents:{via}')
+        cseq = [rq_index(rqs, 1, '/L', 'sub/c'), rq_index(rqs, 1, '/L/sub', 'c')]
+        mk([{'op': 'run', 'c': 2, 'l': 1, 'rq': i, 'via': via} for i in cseq + cseq], tag=f'parents:{via}')
+    # sources that appear / vanish: a failed look-up is not remembered, a vanished source stays served until a clear
+    def without(f):
+        return lambda w, ver: {**w, 'files': {k: v for k, v in w['files'].items() if k != f}}
+
+    def with_new(f):
+        return lambda w, ver: {**w, 'files': {**w['files'], f: ver.new()}}
+    for via in ('obj', 'new', 'runner'):
+        i = rq_index(rqs, 0, None, '/T/d0/vc13p')
+        run = {'op': 'run', 'c': 3, 'l': 0, 'rq': i, 'via': via}
+        ver = Versions()
+        w0 = base_world(ver, files=[f for f in FILES if f != '/T/d0/vc13p.yaml'])
+        mk([run, ('world', with_new('/T/d0/vc13p.yaml')), run, ('world', without('/T/d0/vc13p.yaml')), run,
+            {'op': 'clearAll'}, run, ('world', with_new('/T/d0/vc13p.yaml')), run], world=w0, tag=f'appear:{via}')
+    # two loaders, the same (parent, name); and pairs whose keys coincide under '+' / path joining, all orders
+    pairs = [(('/x/a', 'b+c'), ('/x/a+b', 'c')), (('/L', 'sub/c'), ('/L/sub', 'c')), (('/L', 'x'), (None, '/L/x')),
+             ((None, '/L/x'), ('/L', '/L/x')), ((None, 'n'), ('', 'n'))]
+    for a, b in pairs:
+        for l1, l2 in ((1, 1), (1, 2)):
+            for x, y in ((a, b), (b, a)):
+                ra = {'op': 'run', 'c': 4, 'l': l1, 'rq': rq_index(rqs, l1, *x), 'via': 'new'}
+                rb = {'op': 'run', 'c': 5, 'l': l2, 'rq': rq_index(rqs, l2, *y), 'via': 'pype'}
+                mk([ra, rb, ra, rb, 'edit', rb, ra, {'op': 'clearPipes', 'l': l2, 'how': 'clear_pipes'}, ra, rb], tag='keys')
+    fa = [rq_index(rqs, 0, '/T/a', 'b+c'), rq_index(rqs, 0, '/T/a+b', 'c'), rq_index(rqs, 0, '/T/d0', 'sub/vc13p'),
+          rq_index(rqs, 0, '/T/d0/sub', 'vc13p'), rq_index(rqs, 0, None, '/T/d0/sub/vc13p')]
+    for order in (fa, fa[::-1]):
+        mk([{'op': 'run', 'c': 6 + j, 'l': 0, 'rq': i, 'via': 'new'} for j, i in enumerate(order + order)], tag='keys')
+    return out
+
+
+def random_stack_case(rng):
+    rqs = stack_rqs()
+    ver = Versions()
+    files = [f for f in FILES if rng.random() < 0.8]
+    w0 = base_world(ver, files=files)
+    w = w0
+    ops = []
+    nclients = 3
+    bound = {}        # client id -> (l, name): a Pipeline object is bound to one loader and name
+    for _ in range(rng.randint(4, 14)):
+        x = rng.random()
+        if x < 0.55:
+            l = rng.choice([0, 0, 1, 2])
+            cands = [i for i, rq in enumerate(rqs) if rq['for'] == (0 if l == 0 else 'custom')]
+            i = rng.choice(cands)
+            vias = VIAS_ANY + (VIAS_NOPARENT if rqs[i]['parent'] is None else [])
+            via = rng.choice(vias)
+            c = rng.randrange(nclients)
+            if via in ('obj', 'obj.run'):
+                # pick a client object already bound to this (loader, name) or a new one
+                key = (l, rqs[i]['name'])
+                c = next((k for k, v in bound.items() if v == key), None)
+                if c is None:
+                    c = 10 + len(bound)
+                    bound[c] = key
+            ops.append({'op': 'run', 'c': c, 'l': l, 'rq': i, 'via': via})
+        elif x < 0.75:
+            w = edit_world(w, ver, rng)
+            ops.append({'op': 'world', 'world': w})
+        elif x < 0.93:
+            op = dict(rng.choice(CLEARS + [{'op': 'clearPipes', 'l': rng.choice([0, 1, 2]),
+                                            'how': rng.choice(['clear_pipes', 'Loader.clear'])}] * 2))
+            ops.append(op)
+        else:
+            ops.append({'op': 'noCache', 'b': rng.random() < 0.6})
+    return {'kind': 'stack', 'tag': 'random', 'rqs': rqs, 'world': w0, 'noCache': rng.random() < 0.1, 'ops': ops}
+
 # ---------------------------------------------------------------------------------------------
 # add_sys_path under the scheduler
 # ---------------------------------------------------------------------------------------------
@@ -665,10 +1075,12 @@ def run_syspath_impl(case, dirs):
         return op
     sched = Sched([[do_add(p) for p in prog] for prog in progs])
     holder['sched'] = sched
-    old_lock, old_known = ml._sys_path_lock, ml._known_dirs
+    old_lock, old_known, old_missing = ml._sys_path_lock, ml._known_dirs, getattr(ml, '_missing_dirs', None)
     before = list(sys.path)
     ml._sys_path_lock = SchedLock(sched)
     ml._known_dirs = set()
+    if old_missing is not None:
+        ml._missing_dirs = set()
     try:
         sched.start()
         outcome = sched.run(case['sched'], finish=True)
@@ -680,6 +1092,8 @@ def run_syspath_impl(case, dirs):
                 'prefix_kept': after[:len(before)] == before}
     finally:
         ml._sys_path_lock, ml._known_dirs = old_lock, old_known
+        if old_missing is not None:
+            ml._missing_dirs = old_missing
         sys.path[:] = before
 
 
@@ -737,7 +1151,10 @@ def _worker_chunk(args):
     res = common.Result()
     try:
         for case in cases:
-            check_case(env, res, case)
+            if case.get('kind') == 'stack':
+                check_stack_case(env, res, case)
+            else:
+                check_case(env, res, case)
     finally:
         if env._driver:
             env._driver.close()
@@ -748,7 +1165,10 @@ def run(env, res):
     res.rule = ('turn-level schedules of the cache transition system: exhaustive for 2 threads x 2 ops and '
                 '3 threads x 1 op over {get k0, get k1, clear} x creator-failure scripts x no_cache (thorough: all, on a '
                 'rotating cache class; quick: a seeded slice), directed schedules on every cache class, random longer '
-                'histories (2-3 threads, up to 4 ops, random schedules + fair completion); Loader key pairs; real files '
+                'histories (2-3 threads, up to 4 ops, random schedules + fair completion); layered sessions (run / edit / '
+                'clear / no_cache through long-lived Pipeline objects, pipelinerunner.run, the pype step, long-lived Step objects; '
+                'file loader and two custom loaders; directed: every client x loader x way of clearing, + random 4-14 ops); '
+                'Loader key pairs incl. keys that coincide under path joining; real files '
                 'with + in names; add_sys_path schedules. non-trivial = distinct (cache class, programs, script, schedule)')
     # 1. directed
     for case in directed_cases():
@@ -762,10 +1182,17 @@ def run(env, res):
         c['cache'] = KINDS[i % len(KINDS)]
     # 3. random longer histories
     rnd = [random_case(env.rng) for _ in range(env.n(400, 3000))]
-    work = allc + rnd
+    # 3b. the layers above the caches: directed + random sessions through the real clients
+    stack_precheck()
+    stack = directed_stack_cases() + [random_stack_case(env.rng) for _ in range(env.n(250, 4000))]
+    res.extra['stack_sessions'] = len(stack)
+    work = allc + rnd + stack
     if env.quick:
         for case in work:
-            check_case(env, res, case)
+            if case.get('kind') == 'stack':
+                check_stack_case(env, res, case)
+            else:
+                check_case(env, res, case)
     else:
         import multiprocessing as mp
         nproc = min(14, os.cpu_count() or 2)
@@ -794,6 +1221,9 @@ def replay(env, res, payload):
     kind = case.get('kind')
     if kind == 'sched':
         impl, model = check_case(env, res, case)
+        res.extra['replayed'] = {'impl': impl, 'model': model}
+    elif kind == 'stack':
+        impl, model = check_stack_case(env, res, case)
         res.extra['replayed'] = {'impl': impl, 'model': model}
     elif kind == 'key':
         check_keys(env, res)
